@@ -2,7 +2,10 @@ package vrt
 
 import (
 	"fmt"
+	"os"
 	"runtime"
+	"sync"
+	"sync/atomic"
 	"time"
 )
 
@@ -34,6 +37,8 @@ func Run(opts *Options, prefix []int, expect []PointInfo, body func(x *Exec)) *E
 	if active.Load() != nil {
 		panic("vrt: nested executions")
 	}
+	startWatchdog()
+	beat.Add(1)
 	active.Store(x)
 	main := x.spawn("main", func() { body(x) })
 	x.cur = main
@@ -55,12 +60,50 @@ func Run(opts *Options, prefix []int, expect []PointInfo, body func(x *Exec)) *E
 		}
 		select {
 		case <-t.exited:
-		case <-time.After(20 * time.Second):
-			x.Panics = append(x.Panics, fmt.Sprintf("TEARDOWN: thread %d (%s) did not unwind", t.id, t.name))
+		case <-time.After(120 * time.Second):
+			// the thread is blocked outside the scheduler (uninstrumented synchronisation):
+			// nothing that follows could be trusted - stop the process, the driver reports the
+			// check as broken rather than as a finding
+			stuck(fmt.Sprintf("teardown: thread %d (%s) did not unwind", t.id, t.name))
 		}
 	}
 	active.Store(nil)
 	return x
+}
+
+// beat counts scheduling decisions of all executions; the watchdog ends the process when an
+// execution is active but no scheduling point has been reached for a long time (a thread
+// blocked in synchronisation the scheduler does not own would otherwise hang the run until
+// the driver's timeout). It is a liveness guard only and decides nothing.
+var (
+	beat         atomic.Int64
+	watchdogOnce sync.Once
+)
+
+func stuck(why string) {
+	buf := make([]byte, 1<<20)
+	buf = buf[:runtime.Stack(buf, true)]
+	fmt.Fprintf(os.Stderr, "vrt: WATCHDOG %s\n%s\n", why, buf)
+	os.Exit(3)
+}
+
+func startWatchdog() {
+	watchdogOnce.Do(func() {
+		go func() {
+			last, since := int64(-1), time.Now()
+			for {
+				time.Sleep(2 * time.Second)
+				b := beat.Load()
+				if active.Load() == nil || b != last {
+					last, since = b, time.Now()
+					continue
+				}
+				if time.Since(since) > 180*time.Second {
+					stuck("no scheduling point reached for 180s: a thread is blocked outside the scheduler")
+				}
+			}
+		}()
+	})
 }
 
 // Stats of an exploration.
